@@ -171,7 +171,7 @@ def _shard(ctx, shard, nshards):
     # 4. schema instantiations with perturbations (Hypothesis)
     def factory():
         @seed(runner.hseed(ctx, 3))
-        @runner.hsettings(ctx.scale(1500, 12000))
+        @runner.hsettings(ctx.scale(1500, 40000))
         @given(tapes(160))
         def test(data):
             mx, my, extra = build_case(data)
